@@ -9,5 +9,31 @@ D=/verif/seeded/$1; P=$2
 git -C /repo apply --whitespace=nowarn "$D/patch.diff" || exit 2
 ( cd /verif && ./check "$P" quick 2>&1 | tail -8 ) | tee "$D/.quick.out"
 git -C /repo checkout -- .
-git -C /verif checkout -- "evidence/$P.json"
+git -C /verif checkout -- "evidence/$P.json" lean/SSV/Gen
 git -C /repo status --porcelain | head -3
+# result.json skeleton from the check's output and the first replay
+python3 - "$D" "$P" <<'PY'
+import json,sys,re,os
+D,P=sys.argv[1],sys.argv[2]
+out=open(os.path.join(D,'.quick.out')).read()
+vl=[l for l in out.split('\n') if l.startswith('VIOLATION')]
+first=None; keys=[]; broken=[]
+for l in vl:
+    m=re.search(r'replay=(\S+)',l)
+    if m and os.path.exists(m.group(1)):
+        r=json.load(open(m.group(1)))
+        if r.get('key') and r['key'] not in keys: keys.append(r['key'])
+        if first is None: first={'case':r.get('case'),'detail':r.get('detail')}; broken=r.get('broken',[])
+res={'property':P,'name':os.path.basename(D),'repo_head':os.popen('git -C /repo rev-parse --short HEAD').read().strip(),
+ 'checks':{P:{'exit':1 if vl else 0,'violation_lines':vl,'concrete_input':bool(vl) and not any('no-failing-input-found' in l for l in vl),
+ 'keys':keys,'first_case':first,'broken':[b[:300] for b in broken]}},
+ 'first_run':('caught (quick, seed 1)' if vl else 'MISSED (quick, seed 1)')}
+old=os.path.join(D,'result.json')
+if os.path.exists(old):
+    o=json.load(open(old))
+    for k in ('confirmed','confirmed_how','note'):
+        if k in o: res[k]=o[k]
+json.dump(res,open(old,'w'),indent=1)
+print('result.json written:',res['first_run'],keys[:3])
+PY
+rm -f "$D/.quick.out"
